@@ -57,6 +57,11 @@ func ReadAsUint8Slice[T any](r Reader, c []T) (n int64, err error) {
 
 // Read reads a slice of bytes from r and copies it on c.
 func Read(r Reader, c []byte) (n int64, err error) {
+	// Peek cannot return more than the reader's buffer holds.
+	if len(c) > r.Size() {
+		nint, err := io.ReadFull(r, c)
+		return int64(nint), err
+	}
 	slice, err := r.Peek(len(c))
 	if err != nil {
 		return int64(len(slice)), err
